@@ -1,5 +1,6 @@
 import Operon.Lemmas.C12
 import Operon.Lemmas.C12Str
+import Operon.Lemmas.C12Scan
 /-!
 # C12 — template rendering follows the documented grammar; bound values stay data
 
@@ -280,33 +281,60 @@ theorem c12_bindings_reach_context (cfg : Cfg) (reserved : List Str) (ctx : Ctx)
       exact ⟨p, hp, by simpa using hr⟩
     simp only [synthesizeCall, translateCall, callEntry, this, ↓reduceIte, and_self]
 
-/-! ## String layer = token layer (stretch `c12_str_eq_tok_brace_free`): proved for two of the nine scanners -/
+/-! ## String layer = token layer, and hence string layer = the one left-to-right expansion
 
-/-- PARTIAL of the stretch goal.  For the last two sub-passes of the variable pass — optional variables
-    `\{\{\?(\w+)\}\}` and simple variables `\{\{(\w+)\}\}` — the regex scanners of the STRING layer (the layer that is
-    run against the code) compute exactly the token layer's `tokC` / `tokD`, output text and warnings, on the printed
-    form of EVERY well-formed token list (text, values, defaults, whitespace without `{`; names made of word characters;
-    any mixture of all twelve token kinds, grammar or not), for every environment whose `\w` excludes the delimiter
-    characters and every context whose bound values contain no `{`.
-    Missing for the full statement: the same scanner argument (generic part: `scan_skip`; per scanner: "no hit inside
-    any other printed token, a hit exactly on its own token") for `matchFiltered`, `matchDefault` (plus `replaceAll` on
-    printed tokens for the snapshot-then-replace-everywhere of `passDefault`), the include scanner (same shape as the
-    optional one), and the two block scanners, where `lazyIf`/`findSub` must be shown to stop at the first `ifC`/`eachC`
-    TOKEN.  Until then the equality of the two layers is CHECKED on every generated case (`LAYER-DIFF`). -/
-theorem c12_str_eq_tok_brace_free_partial (cfg : Cfg) (hs : CfgSane cfg) (ctx : Ctx)
-    (htext : ∀ n, NoLB (textOf ctx n)) (ts : List Tok) (hw : ∀ t ∈ ts, t.wfp cfg) :
-    passOptional cfg ctx (printToks ts) = printToks (ts.flatMap (tokC cfg ctx)) ∧
-    passSimple cfg ctx (passOptional cfg ctx (printToks ts))
-      = .ok (printToks ((ts.flatMap (tokC cfg ctx)).flatMap (tokD cfg ctx)),
-             (ts.flatMap (tokC cfg ctx)).flatMap (warnD ctx)) := by
-  have h1 := passOptional_print cfg hs ctx htext ts hw
-  refine ⟨h1, ?_⟩
-  rw [h1]
-  exact passSimple_print cfg hs ctx htext _ (tokC_wfp cfg ctx htext ts hw)
+The string layer `Ribosome.translate` is the model of the CODE (regex scanners over text; it is what the differential
+correspondence runs against `operon_ai/organelles/ribosome.py`).  The clause theorems above are about the token layer.
+The two theorems below close the gap by proof: every regex scanner of the string layer (conditional head + lazy tail,
+loop head + lazy tail, loop-body `str.replace` per loop-context key, include, filtered variable, defaulted variable with
+its snapshot-then-`str.replace`-everywhere, optional variable, simple variable, and the required-variable scan) is shown
+to fire exactly at the start of its own printed token and nowhere else (`Operon/Lemmas/C12Scan.lean`). -/
 
--- STRETCH, FULL STATEMENT NOT PROVED: `c12_str_eq_tok_brace_free` —
---   ∀ cfg ctx fuel (t : Tmpl), Grammar t → text pieces, defaults, values free of `{` and `}` →
---     (translate cfg ctx fuel (printToks (flatten t))).map (·.1) = (renderTok … (flatten t)).map (printToks ·.1)
+/-- CORE (was the stretch goal).  On the printed form of EVERY well-formed token list — any mixture of all twelve token
+    kinds, nested / stray / unclosed block tags included, not only grammar templates — the string layer computes exactly
+    what the token layer computes: the same text, the same warnings in the same order, the same error — in both modes,
+    for every include depth, every registry of well-formed templates and every environment with sane character classes.
+    Hypotheses (`StrOK`): nothing that can be spliced in (bound value, loop item, dict field, filter result, marker)
+    contains `{`, dict keys are words (or `.`), and the names `item`/`index`/`first`/`last` are words of the
+    environment's `\w`.  Well-formed (`Tok.wfs`): text and values without `{`; names made of word characters; defaults
+    non-empty without `{` and `}`; block heads with a non-empty run of spaces. -/
+theorem c12_str_eq_tok_brace_free (cfg : Cfg) (ctx : Ctx) (h : StrOK cfg ctx) (reg : Reg) (hreg : RegOK cfg reg)
+    (fuel : Nat) (ts : List Tok) (hw : ∀ t ∈ ts, t.wfs cfg) :
+    translate cfg ctx fuel (printToks ts)
+      = (match renderTok cfg cfg.strict reg ctx fuel ts with
+         | .ok (o, w) => .ok (printToks o, w)
+         | .error e => .error e) :=
+  (translate_print cfg ctx h reg hreg fuel ts hw).1
+
+/-- CORE, clause 1 for the layer that is tied to the code.  For every grammar template (non-nested blocks, any includes,
+    any depth) whose tokens are well formed, and every context / environment in which nothing spliced in contains `{`:
+    the STRING layer — the four regex passes over text, as the code runs them — renders exactly the text of ONE
+    left-to-right expansion, or both produce no text (a filter raised, or the include depth ran out).  Non-strict mode. -/
+theorem c12_str_eq_spec_brace_free_values (cfg : Cfg) (hns : cfg.strict = false) (ctx : Ctx) (h : StrOK cfg ctx)
+    (reg : SReg) (hreg : GrammarReg reg) (hro : RegOK cfg (tokReg reg)) (fuel : Nat) (t : Tmpl) (ht : Grammar t)
+    (hw : ∀ x ∈ flatten t, x.wfs cfg) :
+    (translate cfg ctx fuel (printToks (flatten t))).toOption.map (·.1) = (renderSpec cfg false reg ctx fuel t).toOption := by
+  rw [c12_str_eq_tok_brace_free cfg ctx h (tokReg reg) hro fuel (flatten t) hw, hns,
+    ← c12_tok_eq_spec_brace_free_values cfg reg ctx h.toBF hreg fuel t ht]
+  cases renderTok cfg false (tokReg reg) ctx fuel (flatten t) with
+  | error e => rfl
+  | ok p => rfl
+
+/-- Strict mode, string layer: a strict render that returns text returns the text of the one left-to-right expansion. -/
+theorem c12_str_strict_refines_spec (cfg : Cfg) (hst : cfg.strict = true) (ctx : Ctx) (h : StrOK cfg ctx)
+    (reg : SReg) (hreg : GrammarReg reg) (hro : RegOK cfg (tokReg reg)) (fuel : Nat) (t : Tmpl) (ht : Grammar t)
+    (hw : ∀ x ∈ flatten t, x.wfs cfg) (s : Str) (w : List Str)
+    (hr : translate cfg ctx fuel (printToks (flatten t)) = .ok (s, w)) :
+    renderSpec cfg false reg ctx fuel t = .ok s := by
+  rw [c12_str_eq_tok_brace_free cfg ctx h (tokReg reg) hro fuel (flatten t) hw, hst] at hr
+  cases hk : renderTok cfg true (tokReg reg) ctx fuel (flatten t) with
+  | error e => rw [hk] at hr; cases hr
+  | ok p =>
+    obtain ⟨o, w'⟩ := p
+    rw [hk] at hr
+    simp only [Except.ok.injEq, Prod.mk.injEq] at hr
+    rw [← hr.1]
+    exact c12_tok_strict_refines_spec cfg reg ctx h.toBF hreg fuel t ht o w' hk
 
 /-! ## Non-vacuity: the hypotheses are satisfiable by non-trivial data -/
 
@@ -365,18 +393,48 @@ example : BF eCfg eCtx ∧ Grammar eTmpl ∧ GrammarReg eReg ∧
 /-- a template with every kind of construct has non-nested blocks: hypothesis of `c12_parse_flatten` -/
 example : (∀ s ∈ eTmpl, s.wf = true) ∧ parse (flatten eTmpl) = some eTmpl := by decide
 
-/-- every kind of token, grammar or not -/
+/-- every kind of token, grammar or not (stray `{{#else}}`, an unclosed `{{#if f}}`) -/
 def eToks : List Tok :=
   [Tok.text [120], Tok.opt [97], Tok.var [97], Tok.pipe [97] [117, 112], Tok.opt [122], Tok.var [122], Tok.dot,
-   Tok.els, Tok.inc [116], Tok.ifO [32] [102], Tok.text [125, 125]]
+   Tok.els, Tok.inc [116, 48], Tok.eachO [32] [120, 115], Tok.var kItem, Tok.var [107], Tok.eachC,
+   Tok.pipe [98] [100, 32, 102], Tok.ifO [32] [102], Tok.text [125, 125]]
 
-/-- ASCII `\w` is sane; on a token list with every kind of token the two string-layer sub-passes and the token-layer
-    ones agree (hypotheses and conclusion of `c12_str_eq_tok_brace_free_partial` on concrete data; a test) -/
-example : CfgSane eCfg ∧
-    (passSimple eCfg eCtx (passOptional eCfg eCtx (printToks eToks))).toOption
-      = some (printToks ((eToks.flatMap (tokC eCfg eCtx)).flatMap (tokD eCfg eCtx)),
-              (eToks.flatMap (tokC eCfg eCtx)).flatMap (warnD eCtx)) :=
-  ⟨⟨by decide, by decide, by decide, by decide, by decide, by decide, by decide, by decide⟩, by decide⟩
+/-- the environment `eCfg` with the registry `eReg` printed into it -/
+def eCfgS : Cfg := { eCfg with templates := (tokReg eReg).map (fun p => (p.1, printToks p.2)) }
+
+def eStrOK : StrOK eCfgS eCtx where
+  sane := { lb := by decide, rb := by decide, q := by decide, hash := by decide, slash := by decide, gt := by decide,
+            dot := by decide, bar := by decide, splb := by decide, disj := ascii_disj }
+  words := ⟨WordName_of_bool (by decide), WordName_of_bool (by decide), WordName_of_bool (by decide),
+            WordName_of_bool (by decide)⟩
+  text := eBF.text
+  items := CtxItemsOK_of_bool (by decide)
+  filt := eBF.filt
+  marker := eBF.marker
+
+def eRegOK : RegOK eCfgS (tokReg eReg) where
+  printed := rfl
+  wf := by
+    intro n b hl
+    simp only [tokReg, eReg, List.map, lookup] at hl
+    split at hl
+    · cases hl; exact wfs_all_of_bool (by decide)
+    · cases hl
+
+/-- the hypotheses of `c12_str_eq_tok_brace_free` hold for a token list with every kind of token (not a grammar
+    template), and both layers compute the same text and warnings on it (the second part is a test) -/
+example : StrOK eCfgS eCtx ∧ RegOK eCfgS (tokReg eReg) ∧ (∀ t ∈ eToks, t.wfs eCfgS) ∧
+    (translate eCfgS eCtx 3 (printToks eToks)).toOption
+      = (renderTok eCfgS false (tokReg eReg) eCtx 3 eToks).toOption.map (fun r => (printToks r.1, r.2)) :=
+  ⟨eStrOK, eRegOK, wfs_all_of_bool (by decide), by decide⟩
+
+/-- the hypotheses of `c12_str_eq_spec_brace_free_values` hold for the template with every kind of construct, and the
+    string layer renders `U` `p{{k}}0;` `qv1;` `<x{{zz}}>` `[?nope]` `dflt` -/
+example : eCfgS.strict = false ∧ Grammar eTmpl ∧ GrammarReg eReg ∧ (∀ x ∈ flatten eTmpl, x.wfs eCfgS) ∧
+    (translate eCfgS eCtx 3 (printToks (flatten eTmpl))).toOption.map (·.1) =
+      some ([85] ++ [112] ++ tagOf [107] ++ [48, 59] ++ [113, 118, 49, 59] ++ [60, 120] ++ tagOf [122, 122] ++ [62]
+        ++ [91, 63, 110, 111, 112, 101, 93] ++ [100, 102, 108, 116]) :=
+  ⟨rfl, eGrammar.1, eGrammar.2, wfs_all_of_bool (by decide), by decide⟩
 
 /-- strict mode over the same data fails (the loop variables `item`, `k`, `index` are unbound names of the template):
     hypotheses of `c12_missing_reported` (a) -/
